@@ -166,6 +166,9 @@ def check(ck: Checker) -> None:
 
     # ----------------------------------------------------------------- push
     _check_closed_requests(ck, "C04.push")
+    from .generic_lints import run_all as _lints
+
+    _lints(ck, "C04.aliasing", "hashfile.transfer")
     from . import round4 as _r4
 
     _r4.hashinfo_identity(ck, "C04.guard")
@@ -238,6 +241,23 @@ def _check_adder(ck: Checker, m: TransferModel, rule: str) -> None:
                     nm = names(c2.args[0])
                     okv = any(cb.has_param(p) for p in nm)
                     ck.require(okv, rule, cb, n, "recorded failure names the failing oid", "recorded failure is not derived from the failing oid")
+                    # ... in the identity the caller asked with: HashInfo(<source store>.hash_name, oid) (the requested
+                    # ids are compared with the failures by equality, which includes the algorithm name)
+                    dparam = c.func.value.id
+                    v = c2.args[0]
+                    alts = [v] + expand1(prog, cb, v, levels=2)
+                    okid = False
+                    for alt in alts:
+                        if isinstance(alt, ast.Call) and call_name(alt) == "HashInfo":
+                            a_n, a_v = get_arg(alt, None, "name", 0), get_arg(alt, None, "value", 1)
+                            if a_n is not None and a_v is not None and isinstance(a_v, ast.Name) and cb.has_param(a_v.id):
+                                nn = norm(a_n)
+                                okid = okid or (nn.endswith(".hash_name") and nn.split(".")[0] != dparam and adder.has_param(nn.split(".")[0]))
+                        if isinstance(alt, ast.Subscript) and isinstance(alt.slice, ast.Name) and cb.has_param(alt.slice.id) and isinstance(alt.value, ast.Name):
+                            okid = True  # looked up in a table of the requested ids
+                    ck.require(okid, rule, cb, n, "a failure is recorded under the requested identity HashInfo(source.hash_name, oid)",
+                               f"the failure is recorded as `{norm(v)[:60]}`, not as HashInfo(<source>.hash_name, oid): when source and destination use different algorithm names (md5-dos2unix -> md5) the recorded id equals none of the requested ids, so objects that never arrived are reported as transferred",
+                               construct=f"{norm(c2)[:60]} / identity")
     # the failure set returned is the one the callback fills, and adds happen for every fs group
     ck.require(len(rets) == 1, rule, adder, adder.node, "helper returns one failure set", f"helper returns several different values: {sorted(rets)}", construct="returns")
 
